@@ -1640,6 +1640,27 @@ func (up4 *UP4) modifyUP4ForwardingConfiguration(pdrs []pdr, allFARs []far, qers
 			pdrLog.Warnln(err)
 		} else {
 			pdrLog.Debugln("related QER found for PDR:", relatedQER)
+
+			// Every QER of the PDR applies to its packets: a gate that one of them closes is closed, and
+			// the QoS flow is the one that one of them names, whichever was taken for the session QER.
+			for _, other := range qers {
+				if other.qerID == relatedQER.qerID || !contains(pdr.qerIDList, other.qerID) {
+					continue
+				}
+
+				if other.ulStatus == ie.GateStatusClosed {
+					relatedQER.ulStatus = ie.GateStatusClosed
+				}
+
+				if other.dlStatus == ie.GateStatusClosed {
+					relatedQER.dlStatus = ie.GateStatusClosed
+				}
+
+				if relatedQER.qfi == 0 {
+					relatedQER.qfi = other.qfi
+				}
+			}
+
 			qfi = relatedQER.qfi
 		}
 
